@@ -292,9 +292,8 @@ def correspondence(ctx):
 
     grids = _grids(ctx, small=not ctx.thorough)
     if not ctx.thorough:
-        # quick: octahedron + one of the other grids by seed
-        names = sorted(grids)
-        keep = {"octa", names[ctx.seed % len(names)]}
+        # quick: octahedron + (two seeds out of three) the cube
+        keep = {"octa"} if ctx.seed % 3 == 1 else {"octa", "cube1"}
         grids = {k: v for k, v in grids.items() if k in keep}
     orders = [1, 2, 3, 4, 5] if ctx.thorough else [2, 1 + ctx.seed % 4]
     # ---- (0) the exafmm stub against a plain double loop (all three kernels, coincident points skipped) -------
@@ -304,12 +303,14 @@ def correspondence(ctx):
         grid = _mkgrid(api, VED, rng=ctx.rng if ctx.rng.random() < 0.5 else None)
         if ctx.thorough:
             cfgs = _space_configs(api, grid, ctx, True)
-        elif gname == "octa":
-            # quick: DP0 / P1 whole + segment always; every third seed one barycentric kind (costly JIT)
-            cfgs = _space_configs(api, grid, ctx, False,
-                                  bary=[None, "DUAL0", None, None, "P1-bary", None][ctx.seed % 6])
         else:
-            cfgs = _space_configs(api, grid, ctx, False, only=("P1-segment-bd", "DP0-segment"))
+            # quick: one space family by seed (whole grid + segment: each family costs a JIT compilation of
+            # map_space_to_points_impl), every third seed a barycentric kind instead of the second grid
+            kinds = ("P1-whole", "P1-segment-bd") if ctx.seed % 2 == 0 else ("DP0-whole", "DP0-segment")
+            cfgs = _space_configs(api, grid, ctx, False, only=kinds)
+            if gname == "octa" and ctx.seed % 3 == 1:
+                bk = ["DUAL0", "P1-bary"][(ctx.seed // 3) % 2]
+                cfgs += [c for c in _space_configs(api, grid, ctx, False, bary=bk) if c[0] == bk]
         for label, sp in cfgs:
             for order in (orders if gname != "cube2" else orders[:1]):
                 lp, w = rule(order)
